@@ -1,4 +1,4 @@
-FIX_COMMITS = []
+FIX_COMMITS = ['81ddff2', '385433c', 'cc971f4', 'bbe6c99', 'bc82b1c', '737bbcb', '381eb2a', 'f3c4e1a', '36238bb']
 NOTES = 'Contract-based deductive verification of the real code: see DESIGN.md. exit 2 of a check means undecided (lost anchor / unsupported construct / resource limit), never an alarm.'
 CHECKS = {
     'C11': {
@@ -13,6 +13,31 @@ CHECKS['C05'] = {
     'design_ref': 'DESIGN.md section 5, C05',
     'note': 'Trusted: redb table order and range semantics (A-redb), Bytes as abstract byte string, increment_by_one for variable-length slices beyond the Kani bound; QueryIterator::next not covered.',
     'technique': 'contract-based deductive verification (Verus on mechanically extracted real functions; Kani for byte-level leaf functions)',
+}
+TECH = 'contract-based deductive verification (Verus on mechanically extracted real functions; Kani for byte-level leaf functions)'
+CHECKS['C02'] = {
+    'text': 'Verus proves, for all table states, keys, timestamps and hashes, that ranger::Store::put (real text) admits an entry iff it is strictly newer than every same-author entry at its key or any prefix of it (empty key and deletion markers included), prunes exactly the same-author entries below its key that are not newer, reports their number, writes the entry and touches nothing else; a rejected entry changes nothing. The proof is modular over the contracts, proved in the same unit on the real text, of get_exact, parents, prefixes_of, remove_prefix_filtered, entry_put, and over the exact range bounds proved in U-bounds.',
+    'design_ref': 'DESIGN.md section 5, C02',
+    'note': 'Trusted: redb table semantics (A-redb), Store::modify runs its closure once (R4), abstract entry getters, Record order (Kani), Bytes. Order-independence over sequences follows from put == put_spec but the fold lemma is not mechanised.',
+    'technique': TECH,
+}
+CHECKS['C08'] = {
+    'text': 'Per-primitive half of the statement: Verus proves on the real text that prefix lookup, filtered prefix removal, single put and the range bounds of the redb-backed store equal their ordered-map definitions, for all table contents and ids.',
+    'design_ref': 'DESIGN.md section 5, C08',
+    'note': 'Trusted: A-redb, R4. Whole-session transcript equality is not decided (relational over process_message).',
+    'technique': TECH,
+}
+CHECKS['C13'] = {
+    'text': 'Verus proves on the real text that entry_put leaves the per-author head at max(old head, entry timestamp) with every other head unchanged, and that remove_replica deletes exactly the heads of the removed document.',
+    'design_ref': 'DESIGN.md section 5, C13',
+    'note': 'Trusted: A-redb, R4, abstract entry getters.',
+    'technique': TECH,
+}
+CHECKS['C16'] = {
+    'text': 'Verus proves on the real text of Store::remove_replica, for all table contents and namespace ids (neighbours in byte order, ids ending in 0xFF): refused while open with nothing changed; otherwise exactly the rows of that document disappear from records, by-key index, heads, capability, peers and policy tables and every other row is unchanged. The namespace range bounds it relies on are proved exact in U-bounds.',
+    'design_ref': 'DESIGN.md section 5, C16',
+    'note': 'Trusted: A-redb, R4, abstract open-replica set.',
+    'technique': TECH,
 }
 NOT_APPLICABLE = {
     'C01': 'whole-session convergence of the generic async reconciliation routine (GAT iterators, three closures, FuturesOrdered) is a protocol proof over message histories, outside function contracts; Verus cannot take process_message, Kani cannot run the redb store or Bytes',
